@@ -21,6 +21,7 @@ PROFILES = {
     "C06": dict(send=28, recv=30, fin=12, await_=6, close=10, probe=2, inj=0.10, big=0.03, odd=0.03, steps=(6, 30)),
     "C16": dict(send=25, recv=25, fin=15, await_=25, close=2, probe=8, inj=0.0, big=0.03, odd=0.02, steps=(8, 40)),
     "C17": dict(send=32, recv=32, fin=12, await_=6, close=4, probe=2, inj=0.03, big=0.08, odd=0.12, steps=(8, 40)),
+    "C05": dict(send=34, recv=30, fin=14, await_=10, close=6, probe=2, inj=0.04, big=0.15, odd=0.05, steps=(8, 40), smallbuf=0.5),
     "C04": dict(send=28, recv=26, fin=14, await_=22, close=5, probe=5, inj=0.03, big=0.05, odd=0.02, steps=(8, 40)),
 }
 
@@ -57,6 +58,8 @@ def gen_exec(r, xid, tp, prof, raw=False):
     kinds = ["send"] * p["send"] + ["recv"] * p["recv"] + ["fin"] * p["fin"] + ["await_"] * p["await_"] + \
             ["close"] * p["close"] + ["probe"] * p["probe"]
     pb = p.get("blk", 0.0)
+    if not pb and not seq and r.random() < p.get("smallbuf", 0.0):
+        lines.append("Z %d" % r.choice([4096, 8192]))      # real back-pressure: the kernel itself refuses
     if pb and not seq and r.random() < 0.5:
         lines.append("Z %d" % r.choice([4096, 8192, 16384, 65536]))
     for _ in range(n):
